@@ -90,6 +90,13 @@ func (ex *Exec) readCell(o *Object, i int) Value {
 		panic(fmt.Sprintf("internal: readCell out of range obj%d(%s) %d/%d", o.id, o.name, i, o.ncells))
 	}
 	v, seq := ex.baseAt(o, i)
+	if len(ex.ts.subst) > 0 {
+		if t, ok := v.(*Term); ok && t.op != OpConst {
+			if c, ok := ex.ts.subst[t]; ok {
+				v = c
+			}
+		}
+	}
 	if len(o.symw) == 0 {
 		return v
 	}
